@@ -129,10 +129,10 @@ impl CommandAcknowledgementHandle {
     pub(crate) fn done(&self, status: CommandStatus) {
         #[cfg(feature = "verif_hooks")]
         self.verif_point(crate::cache::verif::AckSite::Done(0));
-        self.done.store(true, Ordering::Release);
+        *self.status.lock() = status;
         #[cfg(feature = "verif_hooks")]
         self.verif_point(crate::cache::verif::AckSite::Done(1));
-        *self.status.lock() = status;
+        self.done.store(true, Ordering::Release);
         #[cfg(feature = "verif_hooks")]
         self.verif_point(crate::cache::verif::AckSite::Done(2));
         if let Some(waker) = &self.waker_state.lock().waker {
